@@ -6,6 +6,8 @@
 (*     hmissing : how many of the --header-lines rows are reserved without an input record                         *)
 (*     filtered : the list came from a filtering pass of the matcher (a pattern or a deny list), term.list `pass`   *)
 (*     st    = [input, cx, xoffset, list, texts, sel, multi, cy, offset, count, track, pattern]                    *)
+(*             texts: the lines as sequences of cells, the cell "TAB" for a TAB character; with --ansi the text     *)
+(*             without the colour sequences (what fzf reports as the item's text)                                   *)
 (*             pattern: the pattern of the matcher result the list was taken from (match.publish), <<>> = none     *)
 (*     vis   : the show / hide / toggle actions on the header and input sections the trace logged so far, in order *)
 (*             (term.act); the flags of FzfScreen's state are computed from them here (VisAfter)                   *)
@@ -31,7 +33,7 @@ ExactDomain(s, g, c) == InlineInfo(c) => InfoFits(QShown(s, g, c), s, g, c)
 
 (* screen rows that are only held to the claims; gi / ce: the finder's area and the configuration in effect *)
 OpenWindow(t, s, gi, ce) ==
-    /\ ce.hscroll /\ TW(t, gi) > TextRoom(gi, ce)
+    /\ ce.hscroll /\ TWT(t, ce.tabstop, gi) > TextRoom(gi, ce)
     /\ \/ s.pattern # <<>> /\ ~Determined(t, s.pattern, gi)
        \/ \E j \in 1..Len(t) : t[j] \in gi.zero
 Loose(s, g, c) ==
@@ -61,9 +63,20 @@ Core(r, s) ==                                   \* the verdict if the program's 
             THEN (IF L = {} \/ Claims(r.rows, s, g, c) THEN "ok" ELSE "claims " \o FailedClaims(r.rows, s, g, c))
             ELSE IF L = {} /\ DevInfoTail(r.rows, s, g, c) THEN "known info-tail-not-cleared"
             ELSE "exact " \o FailedClaims(r.rows, s, g, c)
+(* The scroll offset of the prompt line.  The hooks log the variable, the screen shows the prompt as it was last     *)
+(* drawn - and the two can differ: beginning-of-line resets the variable at once, and when the action list goes on   *)
+(* to put the cursor back where it was, the prompt is not drawn again (nothing that is displayed has changed).  So   *)
+(* the offset of the last rendition is the logged one or, failing that, any offset updatePromptOffset can leave      *)
+(* behind for this query, cursor and width (a fixed point of PromptOffset).                                           *)
+AdmOffsets(s, g, c) == {xo \in 0..s.cx : PromptOffset([s EXCEPT !.xoffset = xo], Inner(g, c), Eff(s, c)) = xo}
+CoreX(r, s) ==
+    LET v == Core(r, s) IN
+    IF v = "ok" \/ Pre(r, s) # "" THEN v
+    ELSE IF \E xo \in AdmOffsets(s, G(r), r.cfg) : xo # s.xoffset /\ Core(r, [s EXCEPT !.xoffset = xo]) = "ok" THEN "ok"
+    ELSE v
 Verdict(r) ==
     LET s == St(r)
-        v == Core(r, s)
+        v == CoreX(r, s)
         a1 == DevHeaderLinesStayApplies(s, r.cfg)
         s1 == DevHeaderLinesStayState(s)
         a2 == DevHeaderLinesReversedApplies(s, r.cfg, r.vis)
@@ -79,6 +92,8 @@ Verdict(r) ==
             THEN "known missing-header-lines-not-cleared"
        ELSE IF DevKeepRightLostApplies(s, r.cfg, r.filtered) /\ Core([r EXCEPT !.cfg = DevKeepRightLostCfg(r.cfg)], s) = "ok"
             THEN "known keep-right-lost-after-exclude"
+       ELSE IF Pre(r, s) = "" /\ DevTabStops(r.rows, s, G(r), r.cfg, Loose(s, G(r), r.cfg))
+            THEN "known tab-stops-assume-two-column-ellipsis"
        ELSE IF DevStaleRowsApplies(r.cfg, r.vis) /\ Pre(r, s) = "" /\ DevStaleRows(r.rows, s, G(r), r.cfg, Loose(s, G(r), r.cfg))
             THEN "known rows-not-cleared-after-header-toggle-reverse-list"
        ELSE v
